@@ -140,6 +140,8 @@ pub struct Conn {
     pub faulted: bool,
     /// inbound stream stalls: bytes from `offset` on arrive only after `blocks` reads found nothing
     pub gates: Vec<Gate>,
+    /// the previous write call accepted only part of the buffer it was offered
+    pub last_write_partial: bool,
 }
 
 #[derive(Clone, Copy, Debug, Serialize)]
@@ -173,6 +175,8 @@ pub struct World {
     pub frozen: bool,
     pub watchdog_tripped: bool,
     pub clock_spin: bool,
+    /// the slow-transport pause of the current operation has been taken
+    pub slow_write_done: bool,
 }
 
 impl World {
@@ -190,6 +194,7 @@ impl World {
             frozen: false,
             watchdog_tripped: false,
             clock_spin: false,
+            slow_write_done: false,
         }))
     }
 
@@ -199,6 +204,7 @@ impl World {
     }
 
     pub fn begin_op(&mut self) {
+        self.slow_write_done = false;
         self.op_calls = 0;
         self.op_bytes = 0;
         self.frozen = false;
@@ -229,6 +235,7 @@ impl World {
             in_read: 0,
             scheduled: Vec::new(),
             gates: Vec::new(),
+            last_write_partial: false,
             held: Vec::new(),
             close_after_drain: false,
             n_io: 0,
@@ -683,6 +690,14 @@ impl World {
                 FaultKind::Eof => unreachable!(),
             };
         }
+        // a slow transport: time passes between the pieces of a partially accepted buffer
+        if self.conns[conn].last_write_partial && self.conns[conn].policy.slow_write_us > 0 && !self.slow_write_done {
+            // (once per operation: a transport that is slow all the time looks like a dead peer)
+            self.slow_write_done = true;
+            let from = vtime::now();
+            vtime::advance_to(from + self.conns[conn].policy.slow_write_us);
+            self.ev(Ev::Time { from, to: vtime::now() });
+        }
         let now = vtime::now();
         let c = &mut self.conns[conn];
         let mode = c.policy.write;
@@ -697,6 +712,7 @@ impl World {
             }
         }
         self.op_bytes += k;
+        self.conns[conn].last_write_partial = k < buf.len();
         let evi = self.events.len();
         let done = self.conns[conn].out.feed(&buf[..k], now, evi);
         self.io_done(conn, IoKind::Write, buf.len(), IoAns::Bytes(k));
